@@ -2296,7 +2296,13 @@ impl Gen {
     fn cons(&mut self) -> Sx {
         match self.r.below(4) {
             0 => n("norm", vec![]),
-            1 => n("mul", vec![self.f(0.1, 1.0)]),
+            // the factor is an f32 the message must carry as it is: also above 1 (the solver saturates at 255), 0 and
+            // negative (intensity 0) - seeded change C20-9 clamped it to [0,1] on the server
+            1 => match self.r.below(4) {
+                0 => n("mul", vec![self.f(1.0, 4.0)]),
+                1 => n("mul", vec![self.f(-1.0, 0.1)]),
+                _ => n("mul", vec![self.f(0.1, 1.0)]),
+            },
             2 => n("uni", vec![self.u8()]),
             _ => {
                 let (x, y) = (self.r.below(256), self.r.below(256));
@@ -3235,6 +3241,29 @@ pub fn run(args: &Args) {
                     continue;
                 }
                 cx.conversions(&d, if thorough { usize::MAX } else { 24 }, &mut r);
+            }
+        }
+        // directed: every holographic gain with every emission-constraint variant at its boundary values (a Multiply
+        // factor above 1, 0 and negative; Uniform / Clamp end points) - the random constraint above is one draw per gain
+        g.nice = true;
+        let cons: Vec<Sx> = vec![
+            n("norm", vec![]),
+            n("mul", vec![fb(0.5)]), n("mul", vec![fb(1.0)]), n("mul", vec![fb(1.5)]), n("mul", vec![fb(4.0)]),
+            n("mul", vec![fb(0.0)]), n("mul", vec![fb(-0.5)]),
+            n("uni", vec![a(0)]), n("uni", vec![a(255)]), n("clamp", vec![a(0), a(255)]), n("clamp", vec![a(10), a(10)]),
+        ];
+        for k in 0..NKINDS {
+            let d = g.dg_kind(k, 2);
+            let Sx::L(items) = &d else { continue };
+            let is_holo = matches!(items.first(), Some(Sx::A(h)) if ["naive", "gs", "gspat", "lm", "greedy"].contains(&h.as_str()));
+            if !is_holo || items.len() < 3 || !has_model_form(&d) {
+                continue;
+            }
+            for c in &cons {
+                let mut it = items.clone();
+                it[2] = c.clone();
+                cx.out.count("directed holo constraint cases");
+                cx.conversions(&Sx::L(it), if thorough { usize::MAX } else { 4 }, &mut r);
             }
         }
         // sender options
